@@ -15,10 +15,10 @@ MENU_T = [(m, ri) for ri in (False, True)
 
 def plan(tier):
     if tier == "quick":
-        regimes = [("dense", 1, 5), ("bounded", 3, 6, 7)]
+        regimes = [("dense", 1, 5), ("bounded", 3, 6, 7), ("near", 2, 3)]
         menu = MENU_Q
     else:
-        regimes = [("dense", 1, 7), ("bounded", 3, 8, 11)]
+        regimes = [("dense", 1, 7), ("bounded", 3, 8, 11), ("near", 2, 4)]
         menu = MENU_T
     desc, total = pairs.describe_regimes(regimes, 2)
     return {
@@ -130,8 +130,7 @@ def evaluate(r, trains, edges, mrts, ri, be, rank=()):
 
 
 def check_state(r, k, masks, task):
-    trains = [lattice.times(m) for m in masks]
-    edges = lattice.edges(k)
+    trains, edges = pairs.trains_edges(k, masks)
     ns = pairs.nspikes(masks)
     for mi, (m, ri) in enumerate(task["menu"]):
         evaluate(r, trains, edges, m, ri, task["backend"], (k, ns, mi))
